@@ -377,7 +377,7 @@ func checkRepoLocks(p *load.Program, r *kit.Report) {
 	touches := map[*ssa.Function]bool{}
 	var fns []*ssa.Function
 	for i := 0; i < ms.Len(); i++ {
-		if f := p.SSA.MethodValue(ms.At(i)); f != nil && f.Blocks != nil && f.Pkg != nil && f.Pkg.Pkg.Path() == H {
+		if f := p.SSA.MethodValue(ms.At(i)); f != nil && f.Blocks != nil && !p.Skipped(f) && f.Pkg != nil && f.Pkg.Pkg.Path() == H {
 			fns = append(fns, f)
 		}
 	}
